@@ -252,7 +252,8 @@ pub fn selfcheck(debug: bool) -> Result<(u64, f64), String> {
     signed_all::<i128>(&mut run, true);
     unsigned_all::<BigRef>(&mut run, false);
     signed_all::<BigRef>(&mut run, false);
-    let trans: u64 = run.configs.iter().map(|c| c.transitions).sum();
+    let mut trans: u64 = run.configs.iter().map(|c| c.transitions).sum();
+    trans += float_selfcheck()?;
     if run.total_violations() > 0 {
         let mut msg = String::from("model self-check failed (spec vs primitive integers):\n");
         for v in run.violations.iter().take(20) {
@@ -261,4 +262,77 @@ pub fn selfcheck(debug: bool) -> Result<(u64, f64), String> {
         return Err(msg);
     }
     Ok((trans, t0.elapsed().as_secs_f64()))
+}
+
+/// float <-> integer reference semantics vs Rust's `as` on primitives
+fn float_selfcheck() -> Result<u64, String> {
+    use crate::floatspec::*;
+    let mut n = 0u64;
+    macro_rules! f2i {
+        ($bits:expr, $fmt:expr, $fty:ty, $($t:ty, $tb:expr, $sg:expr);*) => {$(
+            {
+                let ti = TypeInfo { bits: $tb, signed: $sg };
+                let got = BigRef::from_i128(0); let _ = got;
+                let f = <$fty>::from_bits($bits as _);
+                let want = f as $t;
+                let want_z = if $sg { BigRef::from_i128(want as i128) } else { BigRef::from_u128(want as u128) };
+                let have = float_to_int($bits as u64, $fmt, ti);
+                n += 1;
+                if have != want_z {
+                    return Err(format!("float_to_int({:#x}, {}) = {} but `as {}` gives {}", $bits, stringify!($fty), have, stringify!($t), want_z));
+                }
+            }
+        )*};
+    }
+    for b in structured_patterns(F32, true) {
+        f2i!(b, F32, f32, u8, 8, false; i8, 8, true; u16, 16, false; i16, 16, true; u32, 32, false; i32, 32, true; u64, 64, false; i64, 64, true; u128, 128, false; i128, 128, true);
+        for (tb, sg) in [(8u32, false), (8, true), (16, false), (24, true), (32, false), (64, true), (128, false), (128, true), (96, false)] {
+            let slow = float_to_int(b, F32, TypeInfo { bits: tb, signed: sg });
+            let (neg, mag) = f32_to_int_fast(b as u32, tb, sg);
+            let fast = if neg { BigRef::from_u128(mag).neg() } else { BigRef::from_u128(mag) };
+            n += 1;
+            if slow != fast {
+                return Err(format!("f32 fast path disagrees with the exact model at {:#x} -> {}{}: {} vs {}", b, if sg { "i" } else { "u" }, tb, fast, slow));
+            }
+        }
+    }
+    for b in structured_patterns(F64, false) {
+        f2i!(b, F64, f64, u8, 8, false; i8, 8, true; u32, 32, false; i32, 32, true; u64, 64, false; i64, 64, true; u128, 128, false; i128, 128, true);
+    }
+    // integer -> float
+    let mut vals: Vec<i128> = vec![0, 1, -1, i128::MAX, i128::MIN, i128::MAX - 1, i64::MAX as i128, i64::MIN as i128];
+    for l in 1..127u32 {
+        for top in [1i128, 3, 5, 7, 0xffffff, 0x1000001, 0x1000003, 0x1fffffffffffff, 0x20000000000001, 0x20000000000003, 0x3fffffffffffff] {
+            let tl = 128 - (top as u128).leading_zeros();
+            if tl > l {
+                continue;
+            }
+            let v = top << (l - tl);
+            for d in [-1i128, 0, 1, 2] {
+                vals.push(v.wrapping_add(d));
+                vals.push(v.wrapping_add(d).wrapping_neg());
+            }
+            vals.push(v | ((1i128 << (l - tl)) - 1));
+            vals.push(v | (1i128 << (l - tl) >> 1));
+        }
+    }
+    for v in vals {
+        let z = BigRef::from_i128(v);
+        n += 4;
+        if int_to_float(&z, F32) != (v as f32).to_bits() as u64 {
+            return Err(format!("int_to_float({}, f32) = {:#x} but `as f32` gives {:#x}", v, int_to_float(&z, F32), (v as f32).to_bits()));
+        }
+        if int_to_float(&z, F64) != (v as f64).to_bits() {
+            return Err(format!("int_to_float({}, f64) = {:#x} but `as f64` gives {:#x}", v, int_to_float(&z, F64), (v as f64).to_bits()));
+        }
+        let u = v as u128;
+        let zu = BigRef::from_u128(u);
+        if int_to_float(&zu, F32) != (u as f32).to_bits() as u64 {
+            return Err(format!("int_to_float({}u128, f32) disagrees with `as f32`", u));
+        }
+        if int_to_float(&zu, F64) != (u as f64).to_bits() {
+            return Err(format!("int_to_float({}u128, f64) disagrees with `as f64`", u));
+        }
+    }
+    Ok(n)
 }
